@@ -5,6 +5,7 @@
 //!   mbn-dst --worker <property> <tier> <seed> <start> <step> <end>   (internal)
 
 mod common;
+mod drawspace;
 mod fwsim;
 mod mach;
 mod props_budget;
@@ -27,6 +28,7 @@ fn engine_for(prop: &str) -> Option<Box<dyn Engine>> {
         "C08" => Box::new(FwEngine(props_more::C08)),
         "C09" => Box::new(FwEngine(props_more::C09)),
         "C10" => Box::new(FwEngine(props_more::C10)),
+        "C06" => Box::new(drawspace::C06),
         "C05" => Box::new(FwEngine(props_ref::C05)),
         _ => return None,
     })
